@@ -92,7 +92,20 @@ fn pfx() -> impl Strategy<Value = Pfx> {
 fn rset(ps: &[Pfx]) -> ResourceSet {
     let v4: Vec<String> = ps.iter().filter(|p| !p.v6).map(|p| p.text()).collect();
     let v6: Vec<String> = ps.iter().filter(|p| p.v6).map(|p| p.text()).collect();
-    ResourceSet::from_strs("", &v4.join(", "), &v6.join(", ")).unwrap_or_default()
+    let rs = ResourceSet::from_strs("", &v4.join(", "), &v6.join(", ")).unwrap_or_default();
+    // A set parsed from overlapping or unordered prefixes is not in canonical
+    // form and `contains` gives wrong answers on it (krill only ever holds
+    // sets taken from certificates, which are canonical): normalise by
+    // taking the union with the empty set block by block.
+    let mut out = ResourceSet::empty();
+    for p in ps {
+        let one = if p.v6 { ResourceSet::from_strs("", "", &p.text()) } else { ResourceSet::from_strs("", &p.text(), "") };
+        if let Ok(one) = one {
+            out = out.union(&one);
+        }
+    }
+    let _ = rs;
+    out
 }
 
 fn in_set(set: &ResourceSet, p: &Pfx) -> bool {
